@@ -27,18 +27,21 @@ extern int G_K, G_KEY[4], G_VAL[4];         /* ghost view: entry count, key offs
 #define G_TITLE(j) ((const char *)G_BLK + G_KEY[j])
 #define G_VALUE(j) (G_VAL[j] < 0 ? (const char *)0 : (const char *)G_BLK + G_VAL[j])
 #define AT_ENTRY(t, j) ((j) < G_K && (t) == G_TITLE(j))
-/* from entry j the increment reaches entry j+1 with its value, or the null iterator after the last entry */
-#define INC_STEP(it, old_title, j) (!AT_ENTRY(old_title, j) || \
-        ((j) + 1 < G_K ? ((it)->title == G_TITLE((j) + 1 < 4 ? (j) + 1 : 3) && (it)->value == G_VALUE((j) + 1 < 4 ? (j) + 1 : 3)) \
-                       : (it)->title == (const char *)0))
-
-void MetaIterator_inc(struct MetaIterator *self)
-__CPROVER_requires(__CPROVER_rw_ok(self, sizeof(*self)))
-__CPROVER_requires(AT_ENTRY(self->title, 0) || AT_ENTRY(self->title, 1) || AT_ENTRY(self->title, 2) || AT_ENTRY(self->title, 3))
-__CPROVER_assigns(self->title, self->value)
-__CPROVER_ensures(INC_STEP(self, __CPROVER_old(self->title), 0) && INC_STEP(self, __CPROVER_old(self->title), 1) &&
-                  INC_STEP(self, __CPROVER_old(self->title), 2) && INC_STEP(self, __CPROVER_old(self->title), 3))
-;
+/* Contract of operator++ over the view:   requires  the iterator is at some entry j (title == key j)
+ *                                         ensures   j+1 < k: title == key j+1, value == value j+1 (NULL if none); else title == NULL
+ * Applied by hand (assert requires / establish ensures) because goto-instrument --replace-call-with-contract under --unwind
+ * costs gigabytes here; the harness puts `#define MetaIterator_inc(it) MetaIterator_inc__by_contract(it)` between the two
+ * extracted files, so only the calls inside MetaContainer::find / operator[] are replaced. */
+static void MetaIterator_inc__by_contract(struct MetaIterator *self)
+{
+    int j = -1;
+    for(int i = 0; i < 4; i++)
+        if(j < 0 && AT_ENTRY(self->title, i))
+            j = i;
+    __CPROVER_assert(j >= 0, "C17 requires of operator++ (view contract): the iterator is at an entry of the block");
+    if(j + 1 < G_K) { self->title = G_TITLE(j + 1); self->value = G_VALUE(j + 1); }
+    else            { self->title = (const char *)0; self->value = nondet_c17_ptr(); }
+}
 
 #else
 /* ---------------------------------------------------------------- proof contracts (any block length) */
